@@ -124,6 +124,15 @@ def enga_check(prop, tier, t0, what):
     if prop == "C04":
         cov["explanation"] += "; plus the arithmetic grid on the real device: every base note 0-127 x every (octave, semitone) in [-14,14]^2 reached by real action presses x velocities, the full 16x16 channel x offset table on three pitches (thorough: 130 presses of every octave/semitone action)"
         assume.append("grid: octave and semitone within +-14 (thorough: single-parameter walks to +-130)")
+    if prop == "C07":
+        # the same oracle at the receiver when the output is read slowly: the instrumented device under the controlled scheduler,
+        # output channel of capacity 1, every schedule up to the preemption bound (a full queue delays the device, it never loses a message)
+        bm, bcov = engb_run(prop, tier, "c16", 2 if tier == "quick" else 3, budget="45s" if tier == "quick" else "600s", select=lambda n: "bidirectional axis" in n)
+        m["violations"].extend(bm["violations"])
+        m["exhaustive"] = m["exhaustive"] and bm["exhaustive"]
+        cov["slow_output_executions"] = bcov["executions"]
+        cov["slow_output_preemption_bound"] = bcov["preemption_bound"]
+        cov["explanation"] += "; plus, under the controlled scheduler, the axis swung end stop to end stop and back to rest through an output channel of capacity 1 with a consumer of arbitrary speed: all schedules up to the preemption bound, both controllers 0 at the receiver at the end"
     if prop == "C08":
         cov["explanation"] += "; plus a transposition walk on the real device: octave, semitone and both together moved by real action presses to +-24 steps (thorough: until the 8-bit counters end), at every step both directions of a hat and of a stick are deflected and returned and compared with the transposition rule and with a real key on the same base note"
     if prop == "C05":
@@ -304,7 +313,7 @@ def engb_build(harness):
     return vlib.build(harness, tag=harness, overlay=ov)
 
 
-def engb_run(prop, tier, harness, bound, extra_args=(), budget="40s", shards=None):
+def engb_run(prop, tier, harness, bound, extra_args=(), budget="40s", shards=None, select=None):
     t_i = __import__("time").time()
     binary, bt = engb_build(harness)
     # engine self-test (channel-model conformance + known answers) is part of every Engine-B check
@@ -322,6 +331,8 @@ def engb_run(prop, tier, harness, bound, extra_args=(), budget="40s", shards=Non
     t_b = __import__("time").time()
     # one process per (scenario, shard): state-fingerprint pruning works best unsharded, so few shards per scenario
     names = [l.split(" ", 1) for l in vlib.run([binary, "-tier", tier, "-list"]).stdout.strip().splitlines() if l.strip()]
+    if select is not None:
+        names = [n for n in names if select(n[1] if len(n) > 1 else "")]
     k = shards or max(1, min(4, vlib.NCPU // max(1, len(names))))
     d = tempfile.mkdtemp(prefix="vres_", dir=vlib.BUILD)
     jobs = []
@@ -408,7 +419,7 @@ def c19(prop, tier, t0):
 @check("C16")
 def c16(prop, tier, t0):
     bound = 2 if tier == "quick" else 3
-    m, cov = engb_run(prop, tier, "c16", bound, budget="45s" if tier == "quick" else "900s")
+    m, cov = engb_run(prop, tier, "c16", bound, budget="45s" if tier == "quick" else "900s", select=lambda n: "bidirectional axis" not in n)
     cov["explanation"] = ("real device package (events.go, device.go, open_rgb.go instrumented incl. data-access annotations) + fake OpenRGB under the controlled scheduler: event feeder, MIDI-input feeder, output drainer, "
                           "ProcessEvents with its LED and MIDI-input goroutines; OpenRGB absent / connected (virtual time) / failing (up to 2, thorough 3, failing calls or the server gone for good, at every call: explicit environment choices), MIDI input nil / live, two devices on one output. Oracle per schedule: ProcessEvents returns after the stream "
                           "ends and nothing it started stays blocked, no happens-before race on any mutable Device field, last LED frame all red, each device's output equals its output when run alone.")
@@ -452,8 +463,8 @@ def replay(prop, path):
                 return 0 if p.returncode == 0 else 2
         print(p.stdout)
         return 2
-    if prop in ("C15", "C16") and det.get("replay"):
-        h = prop.lower()
+    if det.get("replay") and det["replay"].split(" ", 1)[0] in ("c15", "c16"):
+        h = det["replay"].split(" ", 1)[0]
         binary, _ = engb_build(h)
         arg = det["replay"].split("-replay ", 1)[1]
         for tier in ("quick", "thorough"):
